@@ -264,14 +264,14 @@ Theorem int_add_exact A B C b t x y : af_wf A -> af_wf B -> af_add A B = Ok C ->
   choose_storage_scalar C b = SLadder t -> gamma A x -> gamma B y -> machine_repr t (fl_add x y).
 Proof.
   intros WA WB H Hc Gx Gy. apply (proj1 (storage_contains C b t (add_wf_fmt A B C WA WB H) Hc)).
-  eapply add_sound; eauto.
+  exact (add_sound A B C x y WA WB H Gx Gy).
 Qed.
 
 Theorem int_sub_exact A B C b t x y : af_wf A -> af_wf B -> af_sub A B = Ok C ->
   choose_storage_scalar C b = SLadder t -> gamma A x -> gamma B y -> machine_repr t (fl_sub x y).
 Proof.
   intros WA WB H Hc Gx Gy. apply (proj1 (storage_contains C b t (sub_wf_fmt A B C WA WB H) Hc)).
-  eapply sub_sound; eauto.
+  exact (sub_sound A B C x y WA WB H Gx Gy).
 Qed.
 
 (* product: partial, inheriting the refuted arms of C14 (a -0 product of formats without a
@@ -283,7 +283,7 @@ Theorem int_mul_exact_partial A B C b t x y : af_wf A -> af_wf B -> af_wf C -> a
   machine_repr t (fl_mul x y).
 Proof.
   intros WA WB WC H FA FB Hc Gx Gy Hz. apply (proj1 (storage_contains C b t WC Hc)).
-  eapply mul_sound_partial; eauto.
+  exact (mul_sound_partial A B C x y WA WB H FA FB Gx Gy Hz).
 Qed.
 
 Theorem int_mul_exact_refuted : exists A B C t x y,
